@@ -379,6 +379,11 @@ def oracle(case, stats=None):
 
 
 def search(ctx, stats):
+    if ctx.part == "fuzz":
+        # same histories and oracle, driven by libFuzzer (atheris) on the branch coverage of cvxopt/modeling.py
+        from vlib.harness import run_fuzz
+        v = run_fuzz(case_strategy(), lambda c: oracle(c, stats), ctx.seed, ctx.n(1200, 60000), stats, journal=ctx.journal)
+        return [v] if v else []
     n = ctx.n(12000, 300000)
     v = run_given(case_strategy(), lambda c: oracle(c, stats), ctx.seed, n, stats)
     return [v] if v else []
